@@ -246,7 +246,15 @@ let udec_read_spec_check s scale obs =
   | _ -> fail "udec-read-shape" "unexpected observation"
 
 (* ---------- dispatch ---------- *)
-let run (_prop : string) (inp : Sx.t) (obs : Sx.t) : outcome =
+let rec run (_prop : string) (inp : Sx.t) (obs : Sx.t) : outcome =
+  match obs with
+  | Sx.L [Sx.A "reused"; o] ->
+      (* Read into a receiver that already held a value gave something else than Read into a new variable: the specification
+         predicate judges what the used receiver yields; the comparison with the model fails by construction *)
+      let r = run _prop inp o in
+      { r with model = Sx.L [Sx.A "not-reused"; r.model];
+               spec_msg = (if r.spec_ok then "" else r.spec_msg ^ " (Read into a receiver that already held an earlier value; a new variable gives the model's result)") }
+  | _ ->
   match inp with
   | Sx.L [Sx.A "int-read"; b] ->
       let d = bytes_sx b in let m = int_read_model d in
